@@ -215,56 +215,6 @@ Lemma src_TransportLayerNack_DestinationSSRC : forall x,
   GoSrc.TransportLayerNack_DestinationSSRC (src_nack x) = zN (dest_packet (PNACK x)).
 Proof. reflexivity. Qed.
 
-(* ---------------- NackPairsFromSequenceNumbers ---------------- *)
-Lemma shl16_1_shl k : shl 16 1 k = shl16_1 k.
-Proof.
-  unfold shl, shl16_1. destruct (N.leb_spec 16 k), (N.ltb_spec k 16); try lia.
-  rewrite N.mul_1_l. apply N.mod_small. apply N.pow_lt_mono_r; lia.
-Qed.
-
-(* the loop, from index |pre| on, with the pair under construction [cur] and the finished pairs [pairs] *)
-Lemma NackPairs_loop : forall rest pre cur pairs fuel, (length rest < fuel)%nat ->
-  GoSrc.NackPairsFromSequenceNumbers_loop1 fuel (glenl pre) (src_pair cur) pairs (zN (pre ++ rest))
-  = Ok (pairs ++ map src_pair (nack_go cur rest)).
-Proof.
-  induction rest as [|m rest IH]; intros pre cur pairs fuel Hf; (destruct fuel as [|fuel]; [cbn [length] in Hf; lia|]);
-    cbn [GoSrc.NackPairsFromSequenceNumbers_loop1].
-  - rewrite app_nil_r. unfold zN. rewrite glenl_map. rewrite Z.ltb_irrefl. reflexivity.
-  - unfold zN. rewrite glenl_map, glenl_app, glenl_cons.
-    destruct (Z.ltb_spec (glenl pre) (glenl pre + (1 + glenl rest))) as [_|H]; [|pose proof (glenl_nonneg rest); lia].
-    rewrite map_app. cbn [map]. rewrite gnth_app_mid by (rewrite glenl_map; reflexivity). cbn [bind].
-    unfold src_pair. pair_fields. rewrite !uwrap16_sub. rewrite Zltb_N_l.
-    cbn [nack_go]. cbn [length] in Hf.
-    assert (E : map Z.of_N pre ++ Z.of_N m :: map Z.of_N rest = zN ((pre ++ [m]) ++ rest)).
-    { unfold zN. rewrite <- app_assoc, map_app. reflexivity. }
-    assert (Ei : glenl pre + 1 = glenl (pre ++ [m])).
-    { rewrite glenl_app. reflexivity. }
-    rewrite E, Ei.
-    destruct (16 <? sub16 m (np_id cur))%N.
-    + change (GoSrc.mkNackPair (Z.of_N m) 0) with (src_pair {| np_id := m; np_bm := 0 |}).
-      rewrite IH by lia. cbn [map]. rewrite <- app_assoc. reflexivity.
-    + cbn [np_id np_bm].
-      rewrite uwrap16_sub_r, uwrap16_gshl_l, Zlor_N, shl16_1_shl.
-      change (GoSrc.mkNackPair (Z.of_N (np_id cur)) (Z.of_N (N.lor (np_bm cur) (shl16_1 (sub16 (sub16 m (np_id cur)) 1)))))
-        with (src_pair {| np_id := np_id cur; np_bm := N.lor (np_bm cur) (shl16_1 (sub16 (sub16 m (np_id cur)) 1)) |}).
-      rewrite IH by lia. reflexivity.
-Qed.
-
-(* no bound on the sequence numbers is needed: both sides reduce the differences modulo 2^16 in the same way *)
-Lemma src_NackPairsFromSequenceNumbers : forall l,
-  GoSrc.NackPairsFromSequenceNumbers (zN l) = Ok (map src_pair (nack_pairs_from l)).
-Proof.
-  intros [|x l]; [reflexivity|].
-  unfold GoSrc.NackPairsFromSequenceNumbers, nack_pairs_from.
-  destruct (Z.eqb_spec (glenl (zN (x :: l))) 0) as [H|_]; [unfold glenl in H; cbn [zN map length] in H; lia|].
-  change (gnth (zN (x :: l)) 0) with (gnth (Z.of_N x :: zN l) 0). rewrite gnth_0. cbn [bind].
-  apply (NackPairs_loop l [x] {| np_id := x; np_bm := 0 |} []).
-  unfold zN, glenl. rewrite map_length. cbn [length]. lia.
-Qed.
-Corollary src_NackPairsFromSequenceNumbers_fits : forall l, Forall (fun v => (v < 65536)%N) l ->
-  GoSrc.NackPairsFromSequenceNumbers (zN l) = Ok (map src_pair (nack_pairs_from l)).
-Proof. intros l _. apply src_NackPairsFromSequenceNumbers. Qed.
-
 (* ---------------- TransportLayerNack.Marshal ---------------- *)
 Definition nack_enc (q : NackPair) : bytes := be 2 (np_id q) ++ be 2 (np_bm q).
 
@@ -439,9 +389,6 @@ Print Assumptions src_RapidResynchronizationRequest_Unmarshal.
 Print Assumptions src_TransportLayerNack_MarshalSize.
 Print Assumptions src_TransportLayerNack_Header.
 Print Assumptions src_TransportLayerNack_DestinationSSRC.
-Print Assumptions NackPairs_loop.
-Print Assumptions src_NackPairsFromSequenceNumbers.
-Print Assumptions src_NackPairsFromSequenceNumbers_fits.
 Print Assumptions NACK_Marshal_loop.
 Print Assumptions src_TransportLayerNack_Marshal.
 Print Assumptions src_TransportLayerNack_Marshal_fits.
